@@ -71,6 +71,7 @@ def answer (toks : List String) : String :=
       showNats (LineDist.vertlineMV (boolMat r) (bools m) n.toNat!)
   | ["hand", "diagline_mv", n, r, m] =>
       showNats (LineDist.diaglineMV (boolMat r) (bools m) n.toNat!)
+  | ["diagdist", n, r] => showNats (LineDist.diaglineDist (boolMat r) n.toNat!)
   | ["scalars", lmin, h] =>
       let s := LineDist.scalars lmin.toNat! (nats h)
       s!"{s.ratioNum} {s.ratioDen} {s.avgDen} {s.maxLen} {showNats s.weights}"
